@@ -23,6 +23,28 @@ def readFile (fuel : Nat) : Prog (Val × Val) := do
   let bv ← readVal fuel (.arr block)
   if indef then do readBreak; pure (pv, bv) else pure (pv, bv)
 
+/-- reader state between blocks: `m_indef_blocks`, `m_blocks_count`, `m_blocks_read` -/
+structure RdSt where
+  indef : Bool
+  count : Nat
+  read : Nat
+  deriving Repr
+
+/-- `CdnsReader::read_block(eof)`: `none` = eof -/
+def readBlock (fuel : Nat) (st : RdSt) : Prog (Option Val × RdSt) :=
+  if st.indef then do
+    let t ← peekType
+    if t = tBreak then do
+      readBreak
+      pure (none, { st with indef := false, count := st.read })
+    else do
+      let v ← readVal fuel block
+      pure (some v, { st with read := st.read + 1 })
+  else if st.read = st.count then pure (none, st)
+  else do
+    let v ← readVal fuel block
+    pure (some v, { st with read := st.read + 1 })
+
 /-- bytes of an output: `83 65 "C-DNS"`, preamble, `9f`, the blocks, `ff` -/
 def fileBytes (pv : Val) (blocks : List Val) : Bytes :=
   [0x83, 0x65] ++ cdnsText ++ writeBytes filePreamble pv ++ [0x9f] ++ (blocks.map (writeBytes block)).flatten ++ [0xff]
